@@ -255,7 +255,9 @@ def pda_epsilon_closure(P: PDA, R: Iterable[PDAState]) -> Set[PDAState]:
     epsilon = P.epsilon
 
     result: Set[PDAState] = set([r for r in R])
-    todo: Set[PDAState] = set([r for r in R])
+    # pending configurations are handled in a fixed (first in, first out) order, such that the
+    # result does not depend on the iteration order of sets if the loop below is cut off
+    todo: List[PDAState] = sorted(result)
 
     # The loop below may not terminate in case of epsilon cycles. For this
     # reason we limit the number of iterations of the loop.
@@ -264,16 +266,16 @@ def pda_epsilon_closure(P: PDA, R: Iterable[PDAState]) -> Set[PDAState]:
 
     while len(todo) > 0 and iteration < max_iterations:
         iteration += 1
-        src = todo.pop()
+        src = todo.pop(0)
         for (p, a, u), Q1 in delta.items():
             if p != src.q or a != epsilon:
                 continue
-            for (q, v) in Q1:
+            for (q, v) in sorted(Q1):
                 if pda_can_pop_push(P, src.stack, u, v):
                     stack1 = pda_pop_push(P, src.stack, u, v)
                     target = PDAState(q, stack1)
                     if target not in result:
-                        todo.add(target)
+                        todo.append(target)
                         result.add(target)
     return result
 
